@@ -481,7 +481,7 @@ impl Printer {
                             T::Bin(..) | T::As(..) => contains_top_comma(v),
                             _ => false,
                         };
-                        if needs || self.style == Style::Full && is_binlike(v) {
+                        if needs || open_right(v) || self.style == Style::Full && is_binlike(v) {
                             self.paren(v, out)
                         } else {
                             self.term(v, out)
@@ -542,7 +542,12 @@ impl Printer {
             }
             T::Try(f, c) => {
                 out.push_str("try ");
-                self.atom(f, out);
+                if matches!(**f, T::Try(..)) {
+                    // `try try a catch b` would attach the catch to the inner try
+                    self.paren(f, out)
+                } else {
+                    self.atom(f, out)
+                }
                 if let Some(c) = c {
                     out.push_str(" catch ");
                     self.atom(c, out);
